@@ -160,7 +160,7 @@ func (e *CloneSetEnv) Steps(w *World) []string {
 		if podRev(p) == updRev {
 			updated++
 		}
-		if !isPodReady(p) {
+		if !isPodReady(p) && p.Annotations["verif/degraded"] == "" {
 			notReady++
 		}
 	}
@@ -236,7 +236,7 @@ func (e *CloneSetEnv) do(w *World, label string) error {
 		}
 	case "ready":
 		for _, p := range pods {
-			if !isPodReady(p) {
+			if !isPodReady(p) && p.Annotations["verif/degraded"] == "" {
 				setPodReady(p, true)
 				return w.Raw.Update(ctx, p)
 			}
